@@ -57,7 +57,8 @@ def run_session(vh, db, sessions, seed, enc, profile, workdir, tag, inject=None,
     s.events = strace2nd.to_events(s.calls, s.killed)
     # ordinal of every FS call among the calls with the same syscall name made by the main thread
     allcalls, _ = strace2nd.parse(log)
-    mainpid = allcalls[0][0] if allcalls else None
+    # the write session runs on the (locked) thread that writes the markers
+    mainpid = next((c[0] for c in allcalls if c[1] == "write" and "VEVENT " in c[2]), allcalls[0][0] if allcalls else None)
     counts = {}
     ordinal = {}
     for idx, (pid, name, args, ret, tail) in enumerate(allcalls):
